@@ -60,6 +60,9 @@ func B64DecodeString(enc *base64.Encoding, s string) ([]byte, error) {
 		}
 		return []byte("\x00foreign-b64-payload"), nil
 	}
+	if s == "" {
+		return []byte{}, nil
+	}
 	if b, ok := b64Decoded[s]; ok {
 		cp := make([]byte, len(b))
 		copy(cp, b)
@@ -85,9 +88,10 @@ func MinisignSign(priv minisign.PrivateKey, message []byte) []byte {
 //verif:replace aead.dev/minisign.Verify
 func MinisignVerify(pub minisign.PublicKey, message, signature []byte) bool {
 	res := false
-	if IsConcrete(string(signature)) && IsConcrete(string(message)) {
-		if m, ok := minisignSigned[string(signature)]; ok && m == string(message) && !ForeignKey {
-			res = true
+	if IsConcrete(string(signature)) {
+		if m, ok := minisignSigned[string(signature)]; ok && !ForeignKey {
+			// a signature made in this run verifies exactly the message it was made over
+			res = m == string(message)
 		} else {
 			res = Bool("minisign.verify")
 		}
